@@ -293,7 +293,7 @@ func runZero(c *Case) (f *report.Failure, judged bool) {
 func TestCheck(t *testing.T) {
 	r := report.Begin("C05")
 	defer r.Finish()
-	r.Rule("(a) per (exported Go SSZ type, preset in {mainnet, minimal, custom-a, custom-b}) values from refssz.Random in shapes min/typical/at-limit, crossing as bytes: struct root == refssz root == root of the named ztyp TypeDef's decoded view == root of struct.View(); non-trivial = >=1 non-default leaf and, for variable-size types, >=1 non-empty list; key = (type, preset, shape, #lists at limit capped at 3). (b) histories of 3..40 setter/list/copy actions on the beacon state view of each fork phase0..electra (state loaded from a random value's bytes, presets custom-a/custom-b/minimal, mainnet in the thorough tier); after every action every live copy is checked: cached root == root of a view rebuilt from its own bytes == refssz root of those bytes, bytes == encoding of a plain-value model; non-trivial = >=3 applied mutations of which >=1 touches a list/vector spanning more than one chunk and >=1 happens after a CopyState; key = (fork, preset family, sorted action-kind set)")
+	r.Rule("(a) per (exported Go SSZ type, preset in {mainnet, minimal, custom-a, custom-b, custom-c}) values from refssz.Random in shapes min/typical/at-limit, crossing as bytes: struct root == refssz root == root of the named ztyp TypeDef's decoded view == root of struct.View(); non-trivial = >=1 non-default leaf and, for variable-size types, >=1 non-empty list; key = (type, preset, shape, #lists at limit capped at 3). (b) histories of 3..40 setter/list/copy actions on the beacon state view of each fork phase0..electra (state loaded from a random value's bytes, presets custom-a/custom-b/custom-c/minimal, mainnet in the thorough tier); after every action every live copy is checked: cached root == root of a view rebuilt from its own bytes == refssz root of those bytes, bytes == encoding of a plain-value model; non-trivial = >=3 applied mutations of which >=1 touches a list/vector spanning more than one chunk and >=1 happens after a CopyState; key = (fork, preset family, sorted action-kind set)")
 	r.Assume("refssz and /verif/spec_tables/ssz_schemas.txt are the SSZ spec and the spec's schemas (harness transcription); a three-way split with refssz alone is treated as a harness defect first",
 		"decoding failures of valid encodings belong to C04 and are reported here only because no root can be judged without a value",
 		"model semantics of each setter = the spec's field it names (index = argument mod vector length for block/state roots, randao mixes and slashings)")
